@@ -389,9 +389,22 @@ func c10Cases(c *Ctx) []c10Case {
 				files := map[string]string{"p/p.go": src, "p/other.go": other, "q/q.go": bystander, "p/NOTES.txt": notes}
 				// a second user file with its own (non-renamed) derive call
 				files["p/second.go"] = "package p\n\n// second.go has a derive call that keeps its name\nfunc hashB(b *B) uint64 { return deriveHash(b) }\n"
+				// files that sort AFTER the file with the renamed call: valid Go that is not gofmt-formatted,
+				// one without any derive call and one with a derive call that keeps its name
+				files["p/zz_later.go"] = "package p\n\n// loaded after p.go; not gofmt-formatted; no derive call\nfunc   later( a,b int )int{\n        return a-b }\n"
+				files["p/zz_later2.go"] = "package p\n\n// loaded after p.go; not gofmt-formatted; keeps its derive call name\nfunc   cloneC( c *C )*C{ return deriveClone( c ) }\n"
 				add("rename:"+sc.name+fmt.Sprintf(":names%d:layout%d", ni, layout), desc, files, sc.flags, nil, nil)
 			}
 		}
+	}
+	// a rename in an early file followed by a call that is rejected at registration in a later file: the
+	// run fails after the rename was decided; nothing may be created or left behind
+	for _, sc := range scens[:3] {
+		src := "package p\n\n" + types + "\n" + sc.body("deriveEqual", "deriveEqualLongerName")
+		bad := "package p\n\n// rejected at registration: the two arguments have different types\nfunc cmpAB(a *A, b *B) int { return deriveCompare(a, b) }\n"
+		add("rename:"+sc.name+":then-add-error", sc.name+" followed by an Add error in a later file", map[string]string{"p/a.go": src, "p/c_bad.go": bad, "p/other.go": other, "p/zz_later.go": "package p\n\nfunc   later( a,b int )int{ return a-b }\n"}, sc.flags, nil, nil)
+		gen := "package p\n\ntype D struct{ Ch chan int }\n\n// rejected during generation\nfunc cmpD(a, b *D) int { return deriveCompare(a, b) }\n"
+		add("rename:"+sc.name+":then-generator-error", sc.name+" followed by a generator error in a later file", map[string]string{"p/a.go": src, "p/c_bad.go": gen, "p/other.go": other}, sc.flags, nil, nil)
 	}
 	// renamed call in a file with //line directives (goyacc style)
 	for _, sc := range scens[:2] {
